@@ -127,7 +127,12 @@ still to go is an ndarray.  (Indexing into an ndarray creates a new object; such
 the get/set law for them is by value: `C18_nd_get_set`.) -/
 def NoNd (h : Heap) : Ref → Path → Prop
   | _, [] => True
+  | _, .self :: _ => True
   | t, k :: rest => (∀ b o s, h[t]? ≠ some (.nd b o s)) ∧ ∀ c, index h t k = .ok c → NoNd h c rest
+
+theorem NoNd_cons {h : Heap} {t : Ref} {k : PKey} {rest : Path} (hk : k ≠ .self) :
+    NoNd h t (k :: rest) ↔ ((∀ b o s, h[t]? ≠ some (.nd b o s)) ∧ ∀ c, index h t k = .ok c → NoNd h c rest) := by
+  cases k <;> simp_all [NoNd]
 
 theorem Node.slotPut_not_nd {n n' : Node} {k : PKey} {c : Ref} (hp : n.slotPut k c = some n') :
     ∀ b o s, n ≠ .nd b o s := by
@@ -164,7 +169,8 @@ theorem setPath_get_set (strict : Bool) : ∀ (p : Path) (h : Heap) (t v : Ref) 
         split at hs
         · simp at hs
         · exact defaultTree_get_set _ h v h' t' hp hs h'' hag
-      · have hndn : ∀ b o s, n ≠ .nd b o s := by
+      · have hnd := (NoNd_cons hk1).mp hnd
+        have hndn : ∀ b o s, n ≠ .nd b o s := by
           intro b o s e
           subst e
           obtain ⟨ht', hlt', hcell'⟩ := setPath_nd_result hk1 hk2 hn hs
@@ -191,11 +197,12 @@ namespace MlModel.Tree
 
 /-! ## regions: sets of cells closed under following references -/
 
+/-- The *object references* stored in a cell (the children of a container).  An ndarray is a leaf of the
+tree: its buffer is not a child object (it is named by `ndBuf`; that it exists is the invariant `NdOK`). -/
 def Node.refs : Node → List Ref
   | .dict es => es.map (·.2)
   | .list rs => rs
   | .tuple rs => rs
-  | .nd b _ _ => [b]                 -- an array object refers to its buffer
   | _ => []
 
 /-- `A` is a set of cells of `h` closed under following references. -/
